@@ -167,6 +167,10 @@ type Raft struct {
 	// A writer for a snapshot file if one is being installed.
 	snapshot SnapshotFile
 
+	// Indicates that the state machine is being restored from a snapshot that was
+	// just received: the log is about to be replaced by the snapshot.
+	restoring bool
+
 	// The state machine provided by the client that operations will be applied to.
 	fsm StateMachine
 
@@ -857,6 +861,13 @@ func (r *Raft) AppendEntries(request *AppendEntriesRequest, response *AppendEntr
 		return fmt.Errorf("could not execute RequestVote RPC: %s is shutdown", r.id)
 	}
 
+	// While a received snapshot is being restored (the lock is released for that), the snapshot
+	// boundary is already the new one but the log is still the old one and will be discarded:
+	// entries accepted now would be acknowledged and then thrown away.
+	if r.restoring {
+		return fmt.Errorf("could not execute AppendEntries RPC: %s is installing a snapshot", r.id)
+	}
+
 	r.logger.Debugf(
 		"AppendEntries RPC received: leaderID = %s, leaderCommit = %d, term = %d, prevLogIndex = %d, prevLogTerm = %d",
 		request.LeaderID,
@@ -1431,6 +1442,12 @@ func (r *Raft) InstallSnapshot(
 		return fmt.Errorf("could not execute InstallSnapshot RPC: %s is shutdown", r.id)
 	}
 
+	// A snapshot that was received earlier is still being restored (the lock is released
+	// for that): its installation has to finish before another one can begin.
+	if r.restoring {
+		return fmt.Errorf("could not execute InstallSnapshot RPC: %s is installing a snapshot", r.id)
+	}
+
 	r.logger.Debugf(
 		"InstallSnapshot RPC received: leaderID = %s, term = %d, lastIndex = %d, lastTerm = %d, offset = %d, done = %v",
 		request.LeaderID,
@@ -1560,6 +1577,7 @@ func (r *Raft) InstallSnapshot(
 
 	// Restore the state machine with the snapshot.
 	// This could take a while so it's probably best that the lock is released.
+	r.restoring = true
 	r.mu.Unlock()
 	r.logger.Warnf(
 		"restoring state machine with snapshot: lastIndex = %d, lastTerm = %d",
@@ -1573,6 +1591,7 @@ func (r *Raft) InstallSnapshot(
 		r.logger.Fatalf("failed to close snapshot file: error = %v", err)
 	}
 	r.mu.Lock()
+	r.restoring = false
 
 	if r.state == Shutdown {
 		return nil
